@@ -13,8 +13,18 @@ PosClasses(shape) == {<<a, b, c>> : a \in {2 * 4 + ((shape[1] - 1) % 2), ((shape
                                     c \in {2 * 6 + ((shape[3] - 1) % 2), -2 + ((shape[3] - 1) % 2), -2 * 9 + ((shape[3] - 1) % 2)}}
 Mol(P2, R) == [P2 |-> P2, R |-> R]
 Rots(shape) == IF shape = <<3,3,3>> THEN {MId, R90z, R120, R180y} ELSE {MId}
-Cases == UNION {[shape : {sh}, p : PosClasses(sh), R : Rots(sh), second : {"none", "same_component", "other_component"},
-                 order : {0, 1, 3}, s2 : {1, 2, 4}] : sh \in Shapes}
+StdCases == UNION {[shape : {sh}, p : PosClasses(sh), R : Rots(sh), second : {"none", "same_component", "other_component"},
+                 order : {0, 1, 3}, s2 : {1, 2, 4}, ts : {TS}] : sh \in Shapes}
+(* volumes THINNER than the template along one axis: the template overhangs BOTH faces of that axis (a slab, a projection-like
+   volume); <<shape, volume, P2>> with P2 grid-coincident *)
+Thin == {<< <<4,4,4>>, <<2,11,12>>, <<1, 11, 13>> >>, << <<6,5,4>>, <<2,11,12>>, <<1, 10, 13>> >>, << <<6,5,4>>, <<3,11,12>>, <<3, 10, 13>> >>,
+         << <<3,4,5>>, <<10,11,3>>, <<8, 11, 2>> >>, << <<3,3,3>>, <<10,1,12>>, <<8, 0, 12>> >>, << <<3,4,5>>, <<1,2,3>>, <<0, 1, 2>> >>}
+ThinCases == UNION {[shape : {t[1]}, p : {t[3]}, R : Rots(t[1]), second : {"none", "same_component", "other_component"},
+                     order : {0, 1, 3}, s2 : {1, 2}, ts : {t[2]}] : t \in Thin}
+OverhangsBoth(c) == \E a \in 1..3 : \E n, m \in 1..Len(VoxSeq(c.shape)) :
+                       /\ C2(c.p, c.R, c.shape, VoxSeq(c.shape)[n])[a] < 0
+                       /\ C2(c.p, c.R, c.shape, VoxSeq(c.shape)[m])[a] >= 2 * c.ts[a]
+Cases == StdCases \cup ThinCases
 Init == cfg \in Cases /\ done = FALSE
 Next == ~done /\ done' = TRUE /\ UNCHANGED cfg
 Spec == Init /\ [][Next]_<<cfg, done>>
@@ -23,10 +33,12 @@ SecondP2(c) == <<c.p[1] + 2, c.p[2] - 2, c.p[3] + 4>>
 Laws == /\ GridCoincident(cfg.p, cfg.R, cfg.shape)
         /\ \A s \in 1..6, p2 \in -4..4 : CentreWrongIffEven(p2, s)
         \* an interior molecule pastes every voxel exactly once
-        /\ (cfg.p = <<2 * 4 + ((cfg.shape[1] - 1) % 2), 2 * 5 + ((cfg.shape[2] - 1) % 2), 2 * 6 + ((cfg.shape[3] - 1) % 2)>> =>
-              Len(Paste(cfg.p, cfg.R, cfg.shape, TS)) = cfg.shape[1] * cfg.shape[2] * cfg.shape[3])
-Emit == done => PrintT(ToJson([cfg |-> cfg, tshape |-> TS,
-                               paste1 |-> Paste(cfg.p, cfg.R, cfg.shape, TS),
+        /\ (cfg.ts = TS /\ cfg.p = <<2 * 4 + ((cfg.shape[1] - 1) % 2), 2 * 5 + ((cfg.shape[2] - 1) % 2), 2 * 6 + ((cfg.shape[3] - 1) % 2)>> =>
+              Len(Paste(cfg.p, cfg.R, cfg.shape, cfg.ts)) = cfg.shape[1] * cfg.shape[2] * cfg.shape[3])
+        \* the thin-volume cases really overhang both faces of an axis, and still paste something
+        /\ (cfg \in ThinCases => (OverhangsBoth(cfg) /\ Len(Paste(cfg.p, cfg.R, cfg.shape, cfg.ts)) > 0))
+Emit == done => PrintT(ToJson([cfg |-> cfg, tshape |-> cfg.ts,
+                               paste1 |-> Paste(cfg.p, cfg.R, cfg.shape, cfg.ts),
                                p_second |-> SecondP2(cfg),
-                               paste2 |-> IF cfg.second = "none" THEN <<>> ELSE Paste(SecondP2(cfg), MId, cfg.shape, TS)]))
+                               paste2 |-> IF cfg.second = "none" THEN <<>> ELSE Paste(SecondP2(cfg), MId, cfg.shape, cfg.ts)]))
 =============================================================================
